@@ -821,6 +821,8 @@ func runC15(p *Program, r *Report) {
 	c02flush(p, r, "C15.flush")
 	c05leaf(p, r, getLockEnv(p), "C15.leaf")
 	c03ctl(p, r, "C15.len")
+	// the payload of a ping is read in full before it is echoed (seed C15-O)
+	c03full(p, r, "C15.full")
 	// a control frame that was handled (pong sent, unsolicited pong ignored) must leave the timeout watcher disarmed, or the
 	// end of handleControl's own context closes the connection (seed C15-M)
 	shareAs(r, "C10.disarm", "C15.disarm", func(sub *Report) { armingRules(p, sub, false, true) })
